@@ -47,6 +47,7 @@ void abtv_event(int kind, const void *obj, const void *who);
 #define ABTV_EV_WAITLIST_TIMEOUT_UNLINK 4
 #define ABTV_EV_WAITLIST_TIMEOUT_WOKEN 5
 #define ABTV_EV_MEM_LOCAL_POOL_ACCESS 6 /* obj: the local memory pool being used */
+#define ABTV_EV_MEM_LOCAL_POOL_INIT 7    /* obj: a local memory pool starts or ends its life */
 
 #else /* !ABT_VERIF_SIM */
 
